@@ -89,6 +89,8 @@ def lift(v):
         return z3.RealVal(v)
     if hasattr(v, 'item') and getattr(v, 'shape', None) == ():
         return lift(v.item())
+    if z3.is_expr(v):
+        return v
     raise HarnessError('cannot lift %r of type %s' % (v, type(v)))
 
 
@@ -907,8 +909,8 @@ class Explorer:
         """Obligation: on this path, `cond` holds for every value of the symbolic inputs."""
         if isinstance(cond, SymBool):
             cond = cond.t
-        if isinstance(cond, bool):
-            cond = z3.BoolVal(cond)
+        if not z3.is_expr(cond):
+            cond = z3.BoolVal(bool(cond))
         if self.dead:
             return None
         self.obligations += 1
@@ -943,8 +945,8 @@ class Explorer:
         for cond, label, detail in items:
             if isinstance(cond, SymBool):
                 cond = cond.t
-            if isinstance(cond, bool):
-                cond = z3.BoolVal(cond)
+            if not z3.is_expr(cond):
+                cond = z3.BoolVal(bool(cond))
             conds.append((z3.simplify(cond), cond, label, detail))
         open_ = [c for c in conds if not z3.is_true(c[0])]
         self.obligations += len(conds) - len(open_)
